@@ -7,6 +7,8 @@ from concurrent.futures import ThreadPoolExecutor
 wt, out = sys.argv[1], sys.argv[2]
 dirs = sys.argv[3:]
 ids = [c["property_id"] for c in json.load(open("/verif/MANIFEST.json"))["checks"]]
+if os.environ.get("MATRIX_IDS"):       # re-run only these checks and merge into the existing rows
+    ids = [i for i in ids if i in os.environ["MATRIX_IDS"].split(",")]
 res = json.load(open(out)) if os.path.exists(out) else {}
 env = dict(os.environ, VERIF_OUT="/tmp/wt/matrix-out")
 for d in dirs:
@@ -20,7 +22,7 @@ for d in dirs:
         if r.returncode:
             res[d] = {"error": "patch does not apply"}
             continue
-    row = {}
+    row = dict(res.get(d, {})) if os.environ.get("MATRIX_IDS") and isinstance(res.get(d), dict) else {}
     def one(i):
         r = subprocess.run(["./check", i, "--root", wt], cwd="/verif", capture_output=True, text=True, env=env)
         lines = [l for l in r.stdout.splitlines() if l.strip().startswith("violation:")]
